@@ -13,6 +13,12 @@ will complete it.  This file adds AT MOST one, for every schedule:
 * `derived_complete_never_fails` — every `Complete` call the LIBRARY performs succeeds: the only `Complete` calls that
                                   ever return false are repeated completions of a source promise by the environment.
                                   (So no result is ever computed and then dropped by a derived future.)
+
+Audit finding 1 (session 6): `Valid` now includes the well-formedness side condition (`EvOK`: a source is never completed
+with `Try{}` / `Failure(nil)`, every constructed program is `WFE` — Lemmas/FutWF.lean).  The theorems of this file take
+`Valid` as hypothesis, so they no longer speak about runs in which a task of the Go code would panic in
+`t.Failed().Get()` and leave its promise pending (`C06.illformed_source_excluded`); along a valid run no ill-formed Try
+ever exists (`C06.wellformed_every_schedule`).
 -/
 namespace FpVerif.Spec.C06
 open FpVerif FpVerif.Fut FpVerif.Fut.Drain Multiset
